@@ -21,6 +21,7 @@ pub fn run(r: &mut Rep) {
         }
     }
     run_cs(r);
+    repeated_loads(r);
     cpu().clear_events();
     let _ = run_stepped(|| static_idt.load());
     let ev = cpu().evs();
@@ -45,6 +46,24 @@ pub fn run(r: &mut Rep) {
                     break;
                 }
             }
+        }
+    }
+}
+
+/// 300 loads in a row of the same static table: load number k hands the CPU the same operand as load number 1
+pub fn repeated_loads(r: &mut Rep) {
+    crate::simcpu::init();
+    let idt: &'static InterruptDescriptorTable = Box::leak(Box::new(InterruptDescriptorTable::new()));
+    let gdt: &'static GlobalDescriptorTable = Box::leak(Box::new({ let mut g = GlobalDescriptorTable::new(); g.append(Descriptor::kernel_code_segment()); g }));
+    for k in 0..300u32 {
+        cpu().clear_events();
+        let _ = run_stepped(|| { idt.load(); gdt.load() });
+        let ev = cpu().evs();
+        r.transitions += 2;
+        if !(ev.len() == 2 && matches!(ev[0], Ev::Lidt(4095, b, _) if b == idt as *const _ as u64) && matches!(ev[1], Ev::Lgdt(15, b, _) if b == gdt.entries().as_ptr() as u64)) {
+            r.viol("C12|load|call-number-k-differs-from-the-first-call", &format!("loadrepeat {}", k), &format!("{:x?}", ev));
+            r.viol("C14|load|call-number-k-differs-from-the-first-call", &format!("gdtloadrepeat {}", k), &format!("{:x?}", ev));
+            break;
         }
     }
 }
@@ -172,6 +191,7 @@ pub fn run_gdt(r: &mut Rep) {
             }
         }
     }
+    repeated_loads(r);
     let s: &'static GlobalDescriptorTable = Box::leak(Box::new({ let mut g = GlobalDescriptorTable::new(); g.append(Descriptor::kernel_data_segment()); g }));
     cpu().clear_events();
     let _ = run_stepped(|| s.load());
